@@ -541,6 +541,27 @@ def check(run):
     for cs in tie_cases:
         i = impl.add(G.impl_line(cs)); m = mod.add(G.model_line(cs))
         jobs.append(("tie", cs, i, m))
+    # coordNum with a pair list: built at the first step, used (stale) at the second step with moved atoms
+    for k in range(12 * scale):
+        c = gen_until(r, "coordNum", generic=(k % 2 == 1), dup=0.0)
+        if c is None:
+            continue
+        c["params"]["tol"] = r.choice([0.001, 0.0078125, 0.05, 0.2]); c["params"].pop("center", None)
+        if not well_conditioned(c):
+            continue
+        amp = r.choice([0.0, 0.0, 0.3, 1.5])
+        for _ in range(30):
+            moved = [[a[0], a[1]] + [x + (r.gauss(0, amp) if amp else 0.0) for x in a[2:5]] for a in c["atoms"]]
+            c2 = dict(c); c2["atoms"] = moved
+            if well_conditioned(c2):
+                break
+        else:
+            continue
+        i0 = impl.add(G.impl_line([c])); i1 = impl.add(G.pos_line(moved))
+        t1 = G.model_tokens(c); t2 = G.model_tokens(c2)
+        gpos = t1.index("G")
+        m = mod.add(" ".join(["coordNumPL"] + t1[1:gpos - 1] + t1[gpos:] + t2[t2.index("G"):]))
+        jobs.append(("pairlist", {"case": c, "moved": moved, "i": [i0, i1], "amp": amp}, i1, m))
 
     # ---------------- B. exact cases with known answers (definition at special geometries)
     special = gen_special(r, 12 * scale)
@@ -601,6 +622,19 @@ def check(run):
                 run.sample({"tie": impl.lines[i][:400], "impl": iout[i], "model": mout[m]}); nsample += 1
         elif kind == "special":
             judge_special(run, obj, impl.lines[i], iout[i], mod.lines[m], mout[m])
+        elif kind == "pairlist":
+            a = parse_impl(iout[i]); b = parse_model(mout[m]); a0 = parse_impl(iout[obj["i"][0]])
+            run.count("pairlist/" + case_key(obj["case"]) + "/%g" % obj["amp"], True)
+            run.dist("tie:coordNum:pairlist" + (":moved" if obj["amp"] else ":same-positions"))
+            rep = replay_obj("lines", [impl.lines[k] for k in obj["i"]], {"model_lines": [mod.lines[m]]})
+            if a is None or a0 is None:
+                run.violation("value:coordNum:pairlist-error", "coordNum with a pair list fails: %s / %s" % (iout[obj["i"][0]][:80], iout[i][:80]), rep)
+            else:
+                if not vclose(a, b, TOL):
+                    run.mismatch("value:coordNum:pairlist", impl.lines[i][:200], iout[i], mout[m])
+                    run.violation("value:coordNum:pairlist:definition", "coordNum through a stale pair list: implementation %r, model %r" % (a, b), rep)
+                if obj["amp"] == 0.0 and not vclose(a, a0, 1e-12):
+                    run.violation("value:coordNum:pairlist:same-positions", "the pair-list step gives %r where the full evaluation at the same positions gave %r" % (a, a0), rep)
         elif kind == "meta":
             judge_meta(run, obj, impl.lines, iout)
         elif kind == "lines-same":
